@@ -61,6 +61,9 @@ def handle (ss : Session) (line : String) : Session × List String :=
   | some sx =>
     match sx with
     | .list [.atom "reset"] => ({ saved := ss.saved }, ["ok"])
+    | .list [.atom "fragment-multi"] =>
+        -- several objectives: the hypotheses of `C05_feasible_iff_multi` / `C07_weighted_attainable` (`fragmentMultiB_sound`)
+        (ss, ["(n 1)", if ss.st.fragmentMultiB then "true" else "false"])
     | .list [.atom "mark"] => ({ ss with saved := ss.st }, ["ok"])
     | .list [.atom "drop-task-theorem", n] =>
         -- marked state = the full problem, current state = the script without optional task n: every hypothesis of
